@@ -50,10 +50,12 @@ def hook_present():
 
 
 # ---------------------------------------------------------------- programs
-def model_expr(defs):
-    """Model expression (with impl ids) of the last def; returns (string, is_dag)."""
+def model_expr(defs, pre=()):
+    """Model expression (with impl ids) of the last def; returns (string, is_dag).  Defs evaluated beforehand
+    (pre) are cached op nodes: one leaf for NumLeaves, no reductions."""
     counter = [0]
     roots = []
+    pre_idx = {int(x.rstrip("c")) for x in pre}
 
     def fresh():
         counter[0] += 1
@@ -99,7 +101,7 @@ def model_expr(defs):
     for d in defs:
         n, q = parse(d, 0)
         assert q == len(d), d
-        roots.append(n)
+        roots.append(("L",) if len(roots) in pre_idx else n)
     seen, dag = [], [False]
 
     def show(n):
@@ -117,8 +119,8 @@ def programs(rng, tier_quick):
         return rng.choice(["0.25", "0.3", "0.4", "0.5", "0.35"])
     P = []
 
-    def add(name, final, ops, defs):
-        P.append(dict(name=name, final=final, ops=ops, defs=defs))
+    def add(name, final, ops, defs, pre=()):
+        P.append(dict(name=name, final=final, ops=ops, defs=defs, pre=list(pre)))
     seg = rng.choice([32, 40, 48])
     add("tree3", "status", ["cube:1:1:1:0:0:0", "cube:1:1:1:%s:%s:%s" % (off(), off(), off()), "sphere:0.7:%d:0.2:0:0" % seg], ["-(+($0,$1),$2)"])
     add("dag_f1", "status", ["cube:1:1:1:0:0:0", "cube:1:1:1:%s:0.5:0.5" % off()], ["+($0,$1)", "^(#0,T(#0,%s,0,0))" % off()])
@@ -126,6 +128,13 @@ def programs(rng, tier_quick):
         ["+($0,$1)", "-(#0,$2)", "+(#1,T(#0,%s,0.1,0))" % off()])
     add("batch4", "status", ["cube:1:1:1:0:0:0", "cube:1:1:1:%s:0:0" % off(), "cube:1:1:1:5:5:5", "sphere:0.5:16:5.2:5:5"], ["B+($0,$1,$2,$3)"])
     add("isect3", "status", ["sphere:1:%d:0:0:0" % seg, "cube:1.2:1.2:1.2:-0.1:-0.1:-0.1", "cyl:2:0.6:24:0.2:0.2:-1"], ["B^($0,$1,$2)"])
+    # pre-evaluated shared sub-expressions held through second handles; the shared node is an earlier operand of a parent whose
+    # later, non-collapsible sibling is still to be computed: its (cached) frame is on the stack while the sibling's Boolean runs
+    shared_ops = ["cube:1:1:1:0:0:0", "cube:1:1:1:%s:%s:0.2" % (off(), off()), "sphere:1:%d:3:0:0" % rng.choice([24, 32]), "sphere:1:%d:3.%s:0:0" % (rng.choice([24, 32]), rng.choice("3456"))]
+    add("pre_shared", "status", shared_ops, ["+($0,$1)", "^($2,$3)", "+(#0,#1)"], pre=[rng.choice(["0", "0c"])])
+    add("pre_shared_sub", "status", shared_ops, ["+($0,$1)", "^($2,$3)", "-(#0,#1)"], pre=[rng.choice(["0c", "0"])])
+    add("pre_partial", "status", shared_ops + ["cube:1:1:1:6:0:0", "tet:0.8:6.2:0.2:0.2"],
+        ["+($0,$1)", "-($4,$5)", "^($2,$3)", "B+(#0,#1,#2)"], pre=[rng.choice(["0", "1", "0c", "1c"])])
     add("refine_leaf", "refine:3", ["sphere:1:48:0:0:0"], ["$0"])
     add("refine_tree", "refine:2", ["cube:1:1:1:0:0:0", "cube:1:1:1:%s:%s:0.5" % (off(), off())], ["+($0,$1)"])
     add("reflen", "reflen:0.2", ["cube:1:1:1:0:0:0", "tet:0.8:0.2:0.2:0.2"], ["-($0,$1)"])
@@ -148,12 +157,17 @@ def programs(rng, tier_quick):
             add("rtree%d" % i, "status", ["cube:1:1:1:0:0:0", "cube:1:1:1:%s:%s:%s" % (off(), off(), off()), "sphere:0.6:24:%s:0:0" % off(), "tet:1:0:0:0"],
                 [rng.choice(["+(-($0,$1),^($2,$3))", "^(+($0,$1),+($2,$3))", "-($0,B+($1,$2,$3))", "B+(^($0,$1),-($2,$3),$0)"])])
     for p in P:
-        p["expr"], p["dag"] = model_expr(p["defs"])
+        p["expr"], p["dag"] = model_expr(p["defs"], p.get("pre", ()))
     return P
 
 
 def case_line(cid, k, p):
-    return "CASE %s %d %s O %d %s D %d %s" % (cid, k, p["final"], len(p["ops"]), " ".join(p["ops"]), len(p["defs"]), " ".join(p["defs"]))
+    pre = p.get("pre") or []
+    return "CASE %s %d %s O %d %s D %d %s" % (cid, k, p["final"], len(p["ops"]), " ".join(p["ops"]), len(p["defs"]), " ".join(p["defs"])) + \
+           (" E %d %s" % (len(pre), " ".join(pre)) if pre else "")
+
+
+HANDLES = {}      # (id, k) -> [(j, kind, fields...)] ; filled by parse_out
 
 
 def parse_out(text):
@@ -164,6 +178,8 @@ def parse_out(text):
             continue
         if t[0] == "R":
             R[(t[1], int(t[2]))] = dict(x.split("=") for x in t[3:])
+        elif t[0] == "H":
+            HANDLES[(t[1], int(t[2]))] = [tuple(x.split(":")) for x in t[3:]]
         elif t[0] == "W":
             W[(t[1], int(t[2]))] = [(m.group(1), m.group(2) == "!", int(m.group(3))) for m in (re.match(r"(.*?)(!?)\*(\d+)$", x) for x in t[3:])]
         elif t[0] == "P":
@@ -264,6 +280,7 @@ def run(cx):
         "CancelProgOkPar": hdr2 + "Lemma table_is_ok : table_ok table_par = true.\nProof. vm_compute. reflexivity. Qed.\n" + inst % ("par", "par"),
         "CancelPhasesOk": "Lemma phases_ok : phase_counts_match phase_table = true /\\ k_phases_per_boolean = boolean_phase_sites /\\ completion_topup = true.\n"
                           "Proof. repeat split; vm_compute; reflexivity. Qed.\n",
+        "CancelPoisonOk": "Lemma poison_ok : poison_all_frames = true /\\ poison_guarded = true.\nProof. split; vm_compute; reflexivity. Qed.\n",
         "CancelResetOk": "Lemma reset_ok : reset_order_ok reset_order_tree false = true /\\ reset_order_ok reset_order_factory false = true /\\\n"
                          "  List.length reset_order_tree = 4 /\\ List.length reset_order_factory = 4.\nProof. repeat split; vm_compute; reflexivity. Qed.\n",
     }
@@ -296,6 +313,8 @@ def run(cx):
         desc = {
             "CancelProgOkSeq": why("seq"), "CancelProgOkPar": why("par"),
             "CancelPhasesOk": "phase credits per pipeline differ from the constants, or the completion top-up is missing: %r topup=%r" % (tr["phase_table"], tr["topup"]),
+            "CancelPoisonOk": "ToLeafNode's cancel branch must write the Cancelled leaf into every frame's op node that has NO cache_ and only into those "
+                              "(cancel_preserves_evaluated needs the guard `if (!frame->op_node->cache_)`): %r" % (tr.get("poison"),),
             "CancelResetOk": "progress counters are not reset numerators-first: %r" % (tr["reset_order"],),
         }
         for name in obl:
@@ -357,7 +376,7 @@ def dynamic(cx, tr, drv, variant, totals, pr=None):
     kinds = tr["configs"][variant]["checks"] if tr else {}
     env = {"TBB_NUM_THREADS": "4"}
     kl = lambda l: (l.split()[1] + "/" + l.split()[2]) if l.startswith("CASE") else None
-    ko = lambda l: (l.split()[1] + "/" + l.split()[2]) if l[:2] in ("R ", "W ", "P ") else None
+    ko = lambda l: (l.split()[1] + "/" + l.split()[2]) if l[:2] in ("R ", "W ", "P ", "H ") else None
 
     # reference runs (twice: the reference must be reproducible)
     ref_lines = [case_line(p["name"], 0, p) for p in progs]
@@ -508,6 +527,21 @@ def dynamic(cx, tr, drv, variant, totals, pr=None):
             if int(r["rb"]) != int(ref["st"]) or r["rbh"] != ref["h"]:
                 cx.violation("rebuild-differs", "rebuilding the expression from the operands with a fresh context gave status %s hash %s, reference %s %s"
                              % (r["rb"], r["rbh"], ref["st"], ref["h"]), replay)
+            href = {(h[0], h[1]): h[2:] for h in HANDLES.get((name, 0), [])}
+            pre_idx = {x.rstrip("c") for x in (p.get("pre") or [])}
+            for h in HANDLES.get((name, k), []):
+                want = href.get((h[0], h[1]))
+                if want is None or h[2:] == want:
+                    continue
+                if h[1] == "1":
+                    cx.violation("rebuild-from-evaluated-handle-differs", "after the cancelled %s, (handle #%s + cube) evaluated with a fresh context gave status %s hash %s, "
+                                 "reference status %s hash %s" % (p["final"], h[0], h[2], h[3], want[0], want[1]), replay)
+                elif h[0] in pre_idx:
+                    cx.violation("evaluated-operand-modified", "handle #%s (%s) was evaluated before the context evaluation; after the cancelled evaluation it reports "
+                                 "status %s, %s tris, hash %s (before: status %s, %s tris, hash %s)" % (h[0], p["defs"][int(h[0])], h[2], h[3], h[4], want[0], want[1], want[2]), replay)
+                elif not (int(h[2]) == CANCELLED and h[3] == "0"):
+                    cx.violation("live-handle-modified", "handle #%s (%s) is neither its reference value nor Cancelled after the cancelled evaluation: status %s, %s tris"
+                                 % (h[0], p["defs"][int(h[0])], h[2], h[3]), replay)
             check_progress_word(cx, p, k, PW.get((name, k), []), variant, completed=(cls == "complete" and int(r["ctxc"]) == 0), replay=replay)
             # automaton verdict vs observed class
             v = verdict.get((name, k))
